@@ -1,0 +1,23 @@
+//go:build verif
+
+package quic
+
+import "io"
+
+// VerifWriteTo is the framing of one message on the reliable stream.
+func VerifWriteTo(wr io.Writer, payload []byte) (int, error) { return writeTo(wr, payload) }
+
+// VerifDecodeFrom reads one framed message from the stream the way the read loop does; returns the bytes it counted.
+func VerifDecodeFrom(rd io.Reader, compressed bool) ([]byte, uint64, error) {
+	var n uint64
+	t := &Transport{rxBytesCounter: &n, decodeFunc: func(b []byte) ([]byte, error) { return b, nil }}
+	if compressed {
+		t.decodeFunc = decodeWithCompression
+	}
+	m, err := t.decodeFrom(rd)
+	return m, n, err
+}
+
+// VerifEncode / VerifDecode are the per-message compression functions.
+func VerifEncode(bs []byte, level int) ([]byte, error) { return encodeWithCompression(bs, level) }
+func VerifDecode(bs []byte) ([]byte, error)            { return decodeWithCompression(bs) }
